@@ -15,7 +15,9 @@ from ..simobs import LocalityObserver
 PROPERTY = "C05"
 RULE = ("seeded entangled / displaced / mixed priors on 2-5 modes (fock: 2-3) followed by 4-12 probe commands drawn from "
         "every operation class of the backend (gates on every ordered position, dagger forms, loss, thermal loss, "
-        "preparations incl. Thermal / Fock / Ket and Gaussian(decomp=False) on permuted target lists, PassiveChannel, MSgate); "
+        "preparations incl. Thermal / Fock / Ket and Gaussian(decomp=False) on permuted target lists, PassiveChannel, MSgate, "
+        "photon-number measurements on ordered mode lists (fock) and homodyne / heterodyne measurements (gaussian, bosonic), "
+        "sampled and post-selected); "
         "every applied command is a probe with the current state as prior. non-trivial = before the probe the target is "
         "correlated with the spectators (max cross-covariance > 1e-3) and the spectators are not in vacuum; the count is of "
         "distinct programs containing >= 1 such probe; distinct = rounded program + backend set.")
@@ -25,7 +27,8 @@ ASSUMPTIONS = [
     "documented prepared states come from RefGauss / the Ket handed in; The Walrus converts Gaussian references to Fock",
 ]
 REQUIRED_MONITORS = ["spectators:gaussian", "spectators:bosonic", "spectators:fock-pure", "spectators:fock-mixed",
-                     "prep-target:gaussian", "prep-target:bosonic", "prep-target:fock-pure", "special-probes", "spectators:fock(ket representation)", "delete:gaussian", "delete:bosonic", "delete:fock-pure"]
+                     "prep-target:gaussian", "prep-target:bosonic", "prep-target:fock-pure", "special-probes", "spectators:fock(ket representation)", "delete:gaussian", "delete:bosonic", "delete:fock-pure",
+                     "measurement:gaussian", "measurement:bosonic", "measurement:fock-pure", "measurement:fock-mixed"]
 
 
 def load():
@@ -75,6 +78,23 @@ def add_special(rng, spec, backend, D):
         if backend == "bosonic":
             cmds.append({"op": "MSgate", "p": [float(rng.uniform(0.1, 0.5)), float(rng.uniform(0, 3)), 1.2, 0.95],
                          "m": [int(rng.integers(n))], "dag": False})
+    # measurement probes: the other modes may only change by the conditional update of the reported outcome
+    if rng.random() < 0.6:
+        if backend == "fock":
+            k = int(rng.integers(1, n))
+            modes = [int(x) for x in rng.choice(n, k, replace=False)]
+            c = {"op": "MeasureFock", "p": [], "m": modes, "dag": False}
+            if rng.random() < 0.4:
+                c["kw"] = {"select": [int(x) for x in rng.integers(0, 2, k)]}
+        elif rng.random() < 0.7:
+            c = {"op": "MeasureHomodyne", "p": [gen.angle(rng)], "m": [int(rng.integers(n))], "dag": False}
+            if rng.random() < 0.4:
+                c["kw"] = {"select": float(rng.normal(0, 0.8))}
+        else:
+            c = {"op": "MeasureHeterodyne", "p": [], "m": [int(rng.integers(n))], "dag": False}
+            if rng.random() < 0.4:
+                c["kw"] = {"select": enc(complex(rng.normal(0, 0.6), rng.normal(0, 0.6)))}
+        cmds.insert(int(rng.integers(len(cmds) // 2, len(cmds) + 1)), c)
     # something afterwards so that the special op's own effect on later probes is exercised too
     a = int(rng.integers(n))
     cmds.append({"op": "Rgate", "p": [float(rng.uniform(0, 6))], "m": [a], "dag": False})
